@@ -4,6 +4,7 @@ CONSTANTS
   MaxPieces = 0
   Full = FALSE
   Profiles = {}
+  Ambients = {}
   L1Variant = "fixed"
 INVARIANT Verdicts
 POSTCONDITION Accepted
